@@ -6,7 +6,7 @@ n=${1:-4}; shift
 mkdir -p /tmp/mut
 rm -rf /tmp/mut/pristine; mkdir -p /tmp/mut/pristine
 rsync -a --exclude target --exclude .git /repo/ /tmp/mut/pristine/
-python3 /verif/tools/mutate.py list /repo | grep -v -E '"file": "crates/lib/src/(protocols/epic|games/epic|games/minetest)' > /tmp/mut/all.jsonl
+[ -n "$KEEP_LIST" ] || python3 /verif/tools/mutate.py list /repo | grep -v -E '"file": "crates/lib/src/(protocols/epic|games/epic|games/minetest)' > /tmp/mut/all.jsonl
 for k in $(seq 0 $((n-1))); do
   mkdir -p /tmp/mut/s$k
   rsync -a --delete --exclude target --exclude .git /repo/ /tmp/mut/s$k/repo/
